@@ -29,6 +29,7 @@ func main() {
 	dh.Source(r)
 	dh.AppendOptionsCases(r, 1500)
 	dh.Corpus(r)
+	dh.CfgGrid(r)
 	dh.Generate(r, 2, []int{1, 2, 3}, dh.NCfg)
 	if r.Thorough() {
 		dh.PrlSweep(r, 3, 4)
